@@ -149,7 +149,11 @@ def run(tier, seed, replay=None):
     rng_l = random.Random(seed + 59)
     lcases, lmeta = [], []
     def ic(shape): return (np.array([rng_l.randint(-2, 2) for _ in range(int(np.prod(shape)))]) + 1j * np.array([rng_l.randint(-1, 1) for _ in range(int(np.prod(shape)))])).reshape(shape)
-    def zil(a_): return "[" + ";".join("(%d,%d)" % (int(v.real), int(v.imag)) for v in np.asarray(a_).reshape(-1)) + "]%Z"
+    def zil(a_):
+        vs = np.asarray(a_).reshape(-1).astype(np.complex128)
+        if not (np.all(np.isfinite(vs.real)) and np.all(np.isfinite(vs.imag)) and np.all(vs.real == np.round(vs.real)) and np.all(vs.imag == np.round(vs.imag))):
+            raise coqrun.NotExact("a value that should be a Gaussian integer is not")
+        return "[" + ";".join("(%d,%d)" % (int(v.real), int(v.imag)) for v in vs) + "]%Z"
     def o3(a_): return "(%d%%nat,%d%%nat,%d%%nat,%s)" % (a_.shape[0], a_.shape[1], a_.shape[2], zil(a_))
     def o4d(y_):            # the diagonal operator core of a divisor core y (s, M, S): c(s, m, n, S) = y(s, m, S) if m = n
         c_ = np.zeros((y_.shape[0], y_.shape[1], y_.shape[1], y_.shape[2]), dtype=np.complex128)
